@@ -168,4 +168,19 @@ theorem C05_crop_impl (n : Nat) (dTop dBot : Rat) :
 
 example : cohBounds 64 (-3/2) (5/2) = (2, 61) := by decide +kernel
 
+set_option linter.unusedTactic false in
+set_option linter.unreachableTactic false in
+set_option linter.unnecessarySeqFocus false in
+/-- Tie to the source: the expression `_transfer_function` assigns to `phase` (translated symbolically into
+`Gen.Disp.phaseFormula` on every run) is the model's phase law for every non-zero `f` and `ref`, it is a
+number of cycles, and the transfer function is `exp(−i·phase)` with the phase converted to radians.  An
+algebraically equal rewrite of the source keeps this theorem; a changed exponent, sign or factor does not. -/
+theorem C05_source_formula :
+    (∀ DM f r : Rat, f ≠ 0 → r ≠ 0 → Gen.Disp.phaseFormula (K * DM) f r = phaseTurns DM r f) ∧
+    Gen.Disp.phaseUnits = ["cycle"] ∧ Gen.Disp.tfSign = -1 ∧ Gen.Disp.tfAngleUnit = "rad" := by
+  refine ⟨?_, by decide, by decide, by decide⟩
+  intro DM f r hf hr
+  simp only [Gen.Disp.phaseFormula, phaseTurns] <;>
+    first | rfl | ring1 | (field_simp; done) | (field_simp; ring1)
+
 end Pb.C05
